@@ -184,7 +184,7 @@ class MDAJacobi(BaseMDASolver):
         super()._execute()
 
         while True:
-            local_data_before_execution = self.io.data.copy()
+            local_data_before_execution = self._get_local_data_before_execution()
             self._execute_disciplines_and_update_local_data()
             self._compute_residuals(local_data_before_execution)
 
